@@ -5,6 +5,8 @@ package main
 import (
 	"context"
 	"fmt"
+	"github.com/BlackVectorOps/semantic_firewall/v3/internal/cli"
+	"io"
 	"os"
 	"path/filepath"
 	"strings"
@@ -332,6 +334,52 @@ func suiteSandbox(c *Ctx) error {
 		pks = append(pks, p)
 	}
 
+	// ---- the glue in front of generateSpec: cli.SandboxExec decides WHICH mounts are requested ----
+	// A capturing Sandboxer records the Config it is handed; every input (and the working directory)
+	// must be among the requested mounts in absolute form - nothing may be dropped before the
+	// reserved-path and escape checks of generateSpec see it - and the pipeline SandboxExec ->
+	// generateSpec must reject an input that IS a reserved sandbox path even when no such path exists
+	// on the host.
+	{
+		inputsPool := []string{abs("proj"), abs("proj/pkg"), "/gocache", "/app/sfw", "/app", "/proc", "/tmp", "/dev", abs("missing-file.go"), "relative/file.go", "/gocache/sub", "/lib"}
+		ar := r.Fork()
+		for k := 0; k < 40; k++ {
+			var ins []string
+			for j := 0; j < 1+ar.Intn(3); j++ {
+				ins = append(ins, pick(ar, inputsPool))
+			}
+			cap := &capturingSandboxer{}
+			err := cli.SandboxExec(cap, io.Discard, io.Discard, "check", []string{"--target", ins[0]}, ins...)
+			c.Res.Evaluations++
+			c.Count("adapter_cases")
+			rp := map[string]interface{}{"inputs": ins, "requested_mounts": cap.cfg.Mounts, "error": fmt.Sprint(err)}
+			if !cap.called {
+				c.Violate("C14", "C14/adapter-did-not-reach-the-sandbox", fmt.Sprintf("SandboxExec(%v) returned %v without handing a configuration to the sandbox", ins, err), rp)
+				continue
+			}
+			have := map[string]bool{}
+			for _, m := range cap.cfg.Mounts {
+				have[m] = true
+			}
+			for _, in := range ins {
+				a, _ := filepath.Abs(in)
+				if !have[a] {
+					c.Violate("C14", "C14/adapter-drops-requested-mount", fmt.Sprintf("input %s (absolute %s) is not among the mounts requested from the sandbox %v", in, a, cap.cfg.Mounts), rp)
+				}
+			}
+			wantReject := ""
+			for _, in := range ins {
+				a, _ := filepath.Abs(in)
+				if sbReserved[filepath.Clean(a)] {
+					wantReject = a
+				}
+			}
+			_, gerr := sandbox.VerifGenerateSpec(context.Background(), cap.cfg, self)
+			if wantReject != "" && gerr == nil {
+				c.Violate("C14", "C14/reserved-path-accepted:through-SandboxExec", fmt.Sprintf("inputs %v contain the reserved sandbox path %s; SandboxExec + generateSpec accept them", ins, wantReject), rp)
+			}
+		}
+	}
 	mouts, err := RunModel(c.Model, "sandbox", lines)
 	if err != nil {
 		return err
@@ -351,6 +399,18 @@ func suiteSandbox(c *Ctx) error {
 			c.ViolateNoInput("C14", "C14/model-correspondence", fmt.Sprintf("impl %s | model %s", trunc(real, 400), trunc(o, 400)), rp)
 		}
 	}
+	return nil
+}
+
+// capturingSandboxer records the configuration SandboxExec asks the sandbox to run.
+type capturingSandboxer struct {
+	cfg    sandbox.Config
+	called bool
+}
+
+func (s *capturingSandboxer) IsSandboxed() bool { return false }
+func (s *capturingSandboxer) Run(ctx context.Context, cfg sandbox.Config, stdout, stderr io.Writer) error {
+	s.cfg, s.called = cfg, true
 	return nil
 }
 
